@@ -73,7 +73,18 @@ type Contract struct {
 	Havoc     string // for assumed: what is havocked: "none" (default for pure), "all"
 	Fresh     bool
 	Opts      map[string]string
+	RegionAssumes []*Clause // facts assumed (unchecked) about the state at the start of the verified region
+	Asserts   []*AssertSpec // cut-point assertions evaluated before calls: "assert at callee[#k]: expr"
 	synth     bool
+}
+
+// AssertSpec: an assertion over the caller's variables (and arg0..argN, the call's arguments) that
+// must hold immediately before the k-th (source order; every one if k < 0) call to a function
+// whose name ends in Callee.
+type AssertSpec struct {
+	Callee string
+	Ord    int
+	C      *Clause
 }
 
 type TypeSpec struct {
@@ -112,7 +123,7 @@ type ContractFile struct {
 var headRe = regexp.MustCompile(`^(func|iface|assume|type|spec|uninterpreted|axiom|lemma|sweep)\b\s*(.*)$`)
 var clauseKw = map[string]bool{"assumes": true, "defines": true, "requires": true, "ensures": true, "panics": true, "split": true, "loop": true, "modifies": true,
 	"immutable": true, "invariant": true, "view": true, "ghost": true, "mode": true, "inline": true, "refines": true,
-	"pure": true, "property": true, "nopanic": true, "trusted": true, "safety": true, "havoc": true, "fresh": true, "opt": true}
+	"pure": true, "property": true, "nopanic": true, "trusted": true, "safety": true, "havoc": true, "fresh": true, "opt": true, "assert": true, "region": true}
 
 func mustClause(text, where string) *Clause {
 	e, err := ParseExpr(text)
@@ -414,6 +425,33 @@ func ParseContractFile(path, pkgPath string) (cf *ContractFile, err error) {
 			default:
 				panic(fmt.Errorf("%s: unknown loop clause %q", where, f[2]))
 			}
+		case "region":
+			// region from callee[#k]   |   region assumes expr
+			r := strings.TrimSpace(rest)
+			switch {
+			case strings.HasPrefix(r, "from "):
+				cur.Opts["region-from"] = strings.TrimSpace(strings.TrimPrefix(r, "from "))
+			case strings.HasPrefix(r, "assumes "):
+				cur.RegionAssumes = append(cur.RegionAssumes, mustClause(strings.TrimSpace(strings.TrimPrefix(r, "assumes ")), where))
+			default:
+				panic(fmt.Errorf("%s: bad region clause", where))
+			}
+		case "assert":
+			// assert at callee[#k]: expr
+			r := strings.TrimSpace(strings.TrimPrefix(strings.TrimSpace(rest), "at"))
+			k := strings.Index(r, ":")
+			if k < 0 {
+				panic(fmt.Errorf("%s: bad assert clause (assert at callee[#k]: expr)", where))
+			}
+			as := &AssertSpec{Callee: strings.TrimSpace(r[:k]), Ord: -1, C: mustClause(strings.TrimSpace(r[k+1:]), where)}
+			if h := strings.Index(as.Callee, "#"); h >= 0 {
+				n, err := strconv.Atoi(as.Callee[h+1:])
+				if err != nil {
+					panic(fmt.Errorf("%s: assert ordinal", where))
+				}
+				as.Ord, as.Callee = n, as.Callee[:h]
+			}
+			cur.Asserts = append(cur.Asserts, as)
 		default:
 			panic(fmt.Errorf("%s: unknown clause %q", where, kw))
 		}
